@@ -122,10 +122,51 @@ def run_case(case, tier="quick"):
     return dict(base, status="ok", counters={"goals_accepted": len(results), "goals_skipped_defective": skipped})
 
 
+F2_SITE = "NormalizingException@program/transformer/conditions_normalizer.py:_try_abstract_failed_condition"
+
+
+def _has_conditional_temporaries(prog):
+    """
+    Structural precondition of finding C18-F2: Polar creates an auxiliary variable inside a branch (the _old copy of an if nested in
+    another if or under a guard-free top-level if that reassigns one of its own condition variables, the _t temporaries of a simultaneous
+    assignment, the stand-in of a draw with variable parameters), which is then assigned conditionally with itself as default.
+    """
+    found = []
+
+    def walk(stmts, depth):
+        for s in stmts:
+            if s[0] == "simult" and depth >= 1:
+                found.append("simult_in_branch")
+            elif s[0] == "assign" and depth >= 1 and s[2][0] == "draw" and any(L.expr_vars(e) for e in s[2][2]):
+                found.append("variable_draw_in_branch")
+            elif s[0] == "if":
+                cv = set()
+                for cd, b in s[1]:
+                    L.cond_vars(cd, cv)
+                assigned = set()
+                for _, b in s[1]:
+                    L.stmts_assigned(b, assigned)
+                if s[2] is not None:
+                    L.stmts_assigned(s[2], assigned)
+                if depth >= 1 and cv & assigned:
+                    found.append("nested_if_reassigns_condition_variable")
+                for _, b in s[1]:
+                    walk(b, depth + 1)
+                if s[2] is not None:
+                    walk(s[2], depth + 1)
+
+    # a non-trivial guard wraps the whole body in an if
+    walk(prog["body"], 1 if prog["guard"][0] != "true" else 0)
+    return found
+
+
 def classify(case, verdict):
     b = verdict.get("bucket") or ""
     if b.startswith("refusal:"):
-        return "call_site:" + b[len("refusal:"):]
+        site = b[len("refusal:"):]
+        if site == F2_SITE and not _has_conditional_temporaries(case["prog"]):
+            return None  # same call site, but not the listed root cause: reported as a violation
+        return "call_site:" + site
     return None
 
 
